@@ -94,6 +94,10 @@ func (c *CRLRevocationChecker) Cleanup() error {
 	if c.crlUpdateTicker != nil {
 		c.crlUpdateTicker.Stop()
 	}
+	if c.crlUpdateStop != nil {
+		//stop the update goroutine, a stopped ticker alone never wakes it up again
+		close(c.crlUpdateStop)
+	}
 	return nil
 }
 func (c *CRLRevocationChecker) addCrlUrlsFromConfig(chains *core.CertificateChains) error {
